@@ -2,6 +2,7 @@ SPECIFICATION Spec
 CONSTANTS
   Mods <- MCMods
   Absent <- MCAbsent
+  Broken <- MCBroken
   Variant = "plugins_on_miss_only"
   MaxHistory = 3
 INVARIANT HistoryIndependent
